@@ -23,6 +23,8 @@ static CUR_JOB: AtomicU64 = AtomicU64::new(0); // numeric handle of running job 
 static CUR_MAX_EVALS: AtomicU64 = AtomicU64::new(0);
 static CUR_ACTIVE: AtomicBool = AtomicBool::new(false);
 static CUR_START_MS: AtomicU64 = AtomicU64::new(0);
+static CUR_PTHREAD: AtomicU64 = AtomicU64::new(0); // pthread_t of the thread running the current job (0 = none)
+static CUR_STALL_MS: AtomicU64 = AtomicU64::new(20_000); // CPU time the job may burn without reaching any hook
 
 fn unhex(s: &str) -> Option<Vec<u8>> {
     if s == "-" {
@@ -139,6 +141,23 @@ fn parse_job(line: &str) -> Result<Job, String> {
     })
 }
 
+/// CPU time consumed so far by another thread (microseconds), via its CPU-time clock.
+fn other_thread_cpu_us(pt: u64) -> Option<u64> {
+    let mut clk: libc::clockid_t = 0;
+    let mut ts = libc::timespec { tv_sec: 0, tv_nsec: 0 };
+    // SAFETY: pt is the pthread_t of a thread that has not been joined yet (the job thread is joined
+    // only after CUR_PTHREAD is cleared); both calls only write into the local variables.
+    unsafe {
+        if libc::pthread_getcpuclockid(pt as libc::pthread_t, &mut clk) != 0 {
+            return None;
+        }
+        if libc::clock_gettime(clk, &mut ts) != 0 {
+            return None;
+        }
+    }
+    Some(ts.tv_sec as u64 * 1_000_000 + ts.tv_nsec as u64 / 1000)
+}
+
 fn thread_cpu_us() -> u64 {
     let mut ts = libc::timespec { tv_sec: 0, tv_nsec: 0 };
     // SAFETY: plain syscall wrapper writing into a local struct
@@ -250,6 +269,15 @@ fn run_job_on_thread(job: Job, out: Arc<Mutex<std::io::Stdout>>, t_origin: Insta
             results
         })
         .expect("spawn");
+    {
+        use std::os::unix::thread::JoinHandleExt;
+        CUR_PTHREAD.store(h.as_pthread_t() as u64, Ordering::Release);
+    }
+    // wait for the job without joining (the watchdog may still query the thread's CPU clock)
+    while !h.is_finished() {
+        std::thread::sleep(Duration::from_micros(50));
+    }
+    CUR_PTHREAD.store(0, Ordering::Release);
     let results = h.join().unwrap_or_else(|_| vec!["\"panic\":{\"loc\":\"thread\",\"msg\":\"join failed\"}".into()]);
     let t = t_origin.elapsed().as_micros();
     for (i, r) in results.iter().enumerate() {
@@ -301,6 +329,9 @@ fn main() {
     // watchdog: logical-step budget (verdict) and generous wall clock (inconclusive)
     {
         let out = out.clone();
+        let mut last_seq = 0u64;
+        let mut last_progress = 0u64;
+        let mut last_progress_cpu = 0u64;
         std::thread::spawn(move || loop {
             std::thread::sleep(Duration::from_millis(20));
             if !CUR_ACTIVE.load(Ordering::Acquire) {
@@ -308,6 +339,27 @@ fn main() {
             }
             let evals = verif::ELEM_EVALS_TOTAL.load(Ordering::Relaxed);
             let exprs = verif::EXPR_EVALS_TOTAL.load(Ordering::Relaxed);
+            // stall detection on CPU time (not wall clock): the job thread keeps burning CPU but reaches no hook at all
+            let pt = CUR_PTHREAD.load(Ordering::Acquire);
+            if pt != 0 {
+                let seq = CUR_JOB.load(Ordering::Relaxed);
+                let progress = evals
+                    .wrapping_add(exprs)
+                    .wrapping_add(verif::OTHER_STEPS_TOTAL.load(Ordering::Relaxed));
+                if let Some(cpu) = other_thread_cpu_us(pt) {
+                    if seq != last_seq || progress != last_progress {
+                        last_seq = seq;
+                        last_progress = progress;
+                        last_progress_cpu = cpu;
+                    } else if cpu.saturating_sub(last_progress_cpu) > CUR_STALL_MS.load(Ordering::Relaxed) * 1000 {
+                        emit(
+                            &out,
+                            &format!("{{\"ev\":\"stall\",\"seq\":{seq},\"cpu_ms_without_progress\":{},\"elem_evals\":{evals},\"expr_evals\":{exprs}}}", cpu.saturating_sub(last_progress_cpu) / 1000),
+                        );
+                        std::process::exit(87);
+                    }
+                }
+            }
             let max = CUR_MAX_EVALS.load(Ordering::Relaxed);
             let job = CUR_JOB.load(Ordering::Relaxed);
             if max > 0 && (evals > max || exprs > max.saturating_mul(64)) {
@@ -378,6 +430,11 @@ fn main() {
                     verif::EXPR_EVALS_TOTAL.store(0, Ordering::Relaxed);
                     CUR_JOB.store(seq, Ordering::Relaxed);
                     CUR_MAX_EVALS.store(j.max_evals, Ordering::Relaxed);
+                    // stall budget: 20 CPU-seconds, more for very large inputs ((len/1000)^2 ms)
+                    let kb = (j.input.len() / 1000) as u64;
+                    let base: u64 = std::env::var("VERIF_STALL_MS").ok().and_then(|v| v.parse().ok()).unwrap_or(20_000);
+                    CUR_STALL_MS.store(base.max(kb * kb), Ordering::Relaxed);
+                    verif::OTHER_STEPS_TOTAL.store(0, Ordering::Relaxed);
                     CUR_START_MS.store(t_origin.elapsed().as_millis() as u64, Ordering::Relaxed);
                     CUR_ACTIVE.store(true, Ordering::Release);
                     run_job_on_thread(j, out.clone(), t_origin);
